@@ -109,6 +109,33 @@ pub fn transform_light_source(
     super::transform_light_source(source, region, ts)
 }
 
+/// `lighting::specular_lighting` / `lighting::diffuse_lighting` on a raw image; returns the result.
+pub fn lighting(
+    kind: &usvg::filter::Kind,
+    light_source: usvg::filter::LightSource,
+    w: u32,
+    h: u32,
+    src: &[RGBA8],
+) -> Vec<RGBA8> {
+    let mut dest = vec![RGBA8::default(); src.len()];
+    match kind {
+        usvg::filter::Kind::SpecularLighting(fe) => super::lighting::specular_lighting(
+            fe,
+            light_source,
+            ImageRef::new(w, h, src),
+            ImageRefMut::new(w, h, &mut dest),
+        ),
+        usvg::filter::Kind::DiffuseLighting(fe) => super::lighting::diffuse_lighting(
+            fe,
+            light_source,
+            ImageRef::new(w, h, src),
+            ImageRefMut::new(w, h, &mut dest),
+        ),
+        _ => {}
+    }
+    dest
+}
+
 /// Name of a primitive kind (for trace lines).
 pub fn kind_name(kind: &usvg::filter::Kind) -> &'static str {
     use usvg::filter::Kind;
